@@ -274,7 +274,24 @@ def random_project(rng):
             else:
                 jm = [jmp(ids, "callother", desc="syscall", ret=ret)]
         blocks.append(blk(t, defs, jm, ijt_here))
-    return project(blocks, [callee_sub(ids)])
+    return project(blocks, [random_callee(rng, ids) if rng.random() < 0.6 else callee_sub(ids)])
+
+
+def random_callee(rng, ids):
+    """Callee with a random body of 1..3 blocks (validated like the main function)."""
+    n = rng.randrange(1, 4)
+    tids = ["blk_g%d" % i for i in range(n)]
+    blocks = []
+    for i, t in enumerate(tids):
+        defs = rand_defs(rng, ids, rng.randrange(0, 5), allow_sp=False)
+        if i == n - 1:
+            jm = [jmp(ids, "return", target=V(rng.choice(["RCX", "RBX", "RSI"])))]
+        elif rng.random() < 0.6:
+            jm = [jmp(ids, "cbranch", target=rng.choice(tids[i + 1:]), cond=rand_cond(rng)), jmp(ids, "branch", target=tids[i + 1])]
+        else:
+            jm = [jmp(ids, "branch", target=tids[i + 1])]
+        blocks.append(blk(t, defs, jm))
+    return {"tid": "sub_g", "name": "g", "cconv": None, "blocks": blocks}
 
 
 # ------------------------------------------------------------------ deterministic templates
@@ -463,6 +480,10 @@ def random_pi_project(rng):
     tids = ["blk_%d" % i for i in range(n)]
     frame = rng.choice([0, 0x10, 0x20, 0x28])
     use_rbp = rng.random() < 0.4
+    # pointer parameters: registers that are never overwritten and are dereferenced at small constant offsets
+    # (checked under the analysis' assumption that parameter objects alias neither each other nor the stack frame)
+    ptr_regs = rng.choice([[], [], ["RDI"], ["RDI", "RSI"], ["RSI"]])
+    dst_regs = [r for r in PI_REGS if r not in ptr_regs]
     small = lambda: C(rng.choice([0, 1, 2, 3, 4, 5, 7, 8, 10, 16, 100, 0xFF, 0xFFFFFFFFFFFFFFFF, 0xFFFFFFFFFFFFFFF8, 0x7FFFFFFFFFFFFFFF, 0x8000000000000000, rng.randrange(0, 64)]))  # noqa: E731
 
     def stack_addr():
@@ -472,9 +493,25 @@ def random_pi_project(rng):
             return V(base)
         return B("IntAdd" if off > 0 else "IntSub", V(base), C(abs(off)))
 
+    def param_addr():
+        off = rng.choice([0, 8, 8, 16, 4, -8, 0x18])
+        p = V(rng.choice(ptr_regs))
+        return p if off == 0 else B("IntAdd" if off > 0 else "IntSub", p, C(abs(off)))
+
     def rand_def():
         r = rng.random()
-        dst = var(rng.choice(PI_REGS))
+        dst = var(rng.choice(dst_regs))
+        if ptr_regs and rng.random() < 0.3:
+            q = rng.random()
+            if q < 0.5:
+                return load(ids, dst, param_addr())
+            if q < 0.8:
+                return store(ids, param_addr(), rng.choice([V(rng.choice(PI_REGS)), small(), stack_addr()]))
+            if q < 0.9:
+                size = rng.choice([4, 2, 1])
+                return store(ids, param_addr(), rng.choice([SUBP(0, size, V(rng.choice(PI_REGS))), C(0x33333333 & ((1 << (8 * size)) - 1), size)]))
+            # copy of a derived pointer into a data register (the copy is never dereferenced)
+            return assign(ids, dst, param_addr())
         if r < 0.18:
             return assign(ids, dst, small())
         if r < 0.42:
@@ -523,7 +560,7 @@ def random_pi_project(rng):
         inner = a if off == 0 else B("IntAdd", a, C(off))
         wide = rng.choice([V(rng.choice(PI_REGS)), C(0x1111111122222222)])
         narrow = rng.choice([SUBP(0, size, V(rng.choice(PI_REGS))), C(0x33333333, size)])
-        return [store(ids, a, wide), store(ids, inner, narrow), load(ids, var(rng.choice(PI_REGS)), a)]
+        return [store(ids, a, wide), store(ids, inner, narrow), load(ids, var(rng.choice(dst_regs)), a)]
 
     blocks = []
     join_fragment = rng.random() < 0.2 and n >= 4
@@ -536,7 +573,7 @@ def random_pi_project(rng):
                 defs.append(assign(ids, var("RBP"), V("RSP")))
             # typical loop counter initialisation
             if rng.random() < 0.7:
-                defs.append(assign(ids, var(rng.choice(PI_REGS)), C(rng.choice([0, 1, 10]))))
+                defs.append(assign(ids, var(rng.choice(dst_regs)), C(rng.choice([0, 1, 10]))))
         defs += [rand_def() for _ in range(rng.randrange(0, 5))]
         if rng.random() < 0.12:
             defs += cell_fragment()
@@ -572,4 +609,5 @@ def random_pi_project(rng):
         blocks.append(blk(t, defs, jm))
     p = project(blocks, [])
     p["externs"] = []
+    p["ptr_regs"] = ptr_regs
     return p
